@@ -432,7 +432,8 @@ class AQTSampler(cirq.Sampler):
         trial_results: list[cirq.Result] = []
         for param_resolver in cirq.to_resolvers(params):
             id_str = str(uuid.uuid1())
-            num_qubits = len(program.all_qubits())
+            xs = [cast(cirq.LineQubit, q).x for q in program.all_qubits()]
+            num_qubits = max(xs, default=-1) + 1
             json_str = self._generate_json(circuit=program, param_resolver=param_resolver)
             results = self._send_json(
                 json_str=json_str, id_str=id_str, repetitions=repetitions, num_qubits=num_qubits
